@@ -438,6 +438,27 @@ def gen_cases(rng, tier):
             c = _mk("access", "malformed-zerowidth", names, headers, seqs, style, beds=beds,
                     gap=_gen_gap(rng, seqs), skip=False)
         cases.append(c)
+    # round 5: do_access's body run as the program read from its source text (op access_prog), incl. several exclude
+    # files, every call style, and the malformed stream (sequence text before the first header + exclude files)
+    for k in range({"quick": 150, "thorough": 2500, "search": 200}[tier]):
+        c = _gen_access(rng, tag="prog-")
+        c["op"] = "access_prog"
+        if k % 6 == 5:
+            # 4..6 exclude files (the other generators stop at 3): every file of a long `-x` list must count
+            names_k = [q[0] for q in c["in"]["seqs"]]
+            seqs_k = [q[1] for q in c["in"]["seqs"]]
+            beds_k = list(c["in"]["beds"])
+            while len(beds_k) < 4:
+                beds_k += _gen_beds(rng, names_k, seqs_k) or [[]]
+            c["in"]["beds"] = beds_k[:6]
+            c["in"]["bedfmt"] = [rng.choice(BEDFMTS) for _ in c["in"]["beds"]]
+            c["tag"] = "prog-manyfiles"
+            if "gap" in c["in"]:
+                c["in"]["gap"] = _gen_gap(rng, seqs_k, names_k, c["in"]["beds"])
+        if k % 25 == 24:
+            c["tag"] = "malformed-noheader-prog"
+            c["in"]["text"] = rng.choice(["ACGT\n", "N\n", "ANA\n"]) + c["in"]["text"]
+        cases.append(c)
     return cases
 
 
@@ -469,7 +490,7 @@ def run_impl(case):
             with open(fn, "w", newline="") as f:
                 f.write(_bed_text(rows, fmts[k] if k < len(fmts) else "bed3"))
             fns.append(fn)
-        if op == "access":
+        if op in ("access", "access_prog"):
             call = i.get("call", "pos")
             if call == "pos":
                 return _rows(access.do_access(fa, fns, i["gap"], i["skip"]))
@@ -534,6 +555,14 @@ def to_line(case, impl):
         return {"op": "canonical_name", "in": {"name": i["name"]}}
     inp = {"text": i["text"], "seqs": i["seqs"]}
     op = case["op"]
+    if op == "access_prog":
+        # do_access as the program read from its source (Generated.DO_ACCESS_PROG); exclude files left to the default
+        # of `exclude_fnames` when the call left them out
+        if i["beds"] or i.get("call", "pos") in ("pos", "tuple", "kw"):
+            inp["beds"] = i["beds"]
+        for k in ("gap", "skip"):
+            if k in i:
+                inp[k] = i[k]
     if op in ("access", "access_cli"):
         inp["beds"] = i["beds"]
         for k in ("gap", "skip"):       # skip / gap left out: the driver takes the defaults read from the source
@@ -580,6 +609,9 @@ def judge(case, impl, resp):
     if len(set(names)) == len(names) and not _malformed(case):
         if resp.get("per_chrom_agrees") is False:
             disagree.append("model: per-sequence pipeline (accessChrom) != table-level model (doAccess)")
+        if resp.get("prog_agrees") is False:
+            disagree.append("model: do_access's body as read from the source (DO_ACCESS_PROG) != doAccess "
+                            "[theorem do_access_is_the_source]")
         if resp.get("records_agree") is False:
             disagree.append("model: per-record scanSeq != file loop")
         if resp.get("specm"):
